@@ -35,6 +35,40 @@ def atom_kinds(atoms):
     return out
 
 
+
+def _tests_emptiness(prog, body):
+    pvh = Prov(prog, inline=False)
+    for fb in prog.family(body):
+        for bi in fb.reach:
+            x = fb.blocks[bi].term
+            if x.k == "switch" and any(a[0] == "call" and a[1].endswith("HpoGroup::is_empty") for a in pvh.of_operand(fb, x.discr)):
+                return True
+    return False
+
+
+def elsewhere_guard(prog, pv, pvn, sub, fb, t):
+    """the phenotype guard written somewhere else than on the path to the annotate call: (i) the call sits in a closure that sub_ontology hands to a
+    private helper which tests an intersection for emptiness before it calls the closure; (ii) the term argument is taken from a set computed by a
+    closure / private helper that returns the empty set when the intersection is empty.  Returns a description or None."""
+    fam = prog.family(sub)
+    if fb.kind == "Closure":
+        for ob in fam:
+            for _, ot in ob.calls():
+                hb = prog.bodies.get(ot.callee.res or "")
+                if hb is None or hb.kind not in ("Fn", "AssocFn") or hb.exported or hb.reachable or hb.impl_trait:
+                    continue
+                if any(pv.closure_of_operand(ob, a) == fb.id for a in ot.args) and _tests_emptiness(prog, hb):
+                    return "the private helper %s that receives the annotating closure" % hb.short
+    if len(t.args) > 3:
+        for a in pv.of_operand(fb, t.args[3]):
+            if a[0] == "closure" and a[1] in prog.bodies and a[1] != fb.id and _tests_emptiness(prog, prog.bodies[a[1]]):
+                return "the closure at line %s that computes the terms to annotate" % prog.bodies[a[1]].where().rsplit(":", 1)[-1]
+            if a[0] == "call" and a[1] in prog.bodies:
+                hb = prog.bodies[a[1]]
+                if hb.kind in ("Fn", "AssocFn") and not (hb.exported or hb.reachable or hb.impl_trait) and _tests_emptiness(prog, hb):
+                    return "the private helper %s that computes the terms to annotate" % hb.short
+    return None
+
 def run(ck, prog, ctx):
     ck.rule("SIBLING", "all implementations of the modifier/category membership predicate test ancestors ∪ {self} (DESIGN 3.15)")
     ck.rule("KIND", "K2/K3 over the re-annotation loops (DESIGN 3.3)")
@@ -133,6 +167,8 @@ def run(ck, prog, ctx):
                         helper_guard = gt
             if not guards and helper_guard is not None:
                 ck.undecided("KIND", "guard/sub_ontology/%s" % m, "%s is guarded by the result of the private helper %s (which decides from the %s record's terms): the helper's test is not classified" % (m, (helper_guard.callee.res or "").rsplit("::", 1)[-1], K), where=fb.where(t.line))
+            elif not guards and elsewhere_guard(prog, pv, pvn, sub, fb, t):
+                ck.undecided("KIND", "guard/sub_ontology/%s" % m, "%s: the emptiness test of an intersection sits in %s, not on the path to this call: whether it keeps modifier-only records out is not classified" % (m, elsewhere_guard(prog, pv, pvn, sub, fb, t)), where=fb.where(t.line))
             elif not guards:
                 ck.ob("KIND", "guard/sub_ontology/%s" % m, False, "%s is not guarded by a non-empty phenotype intersection: records annotated only to modifier terms are kept" % m, where=fb.where(t.line))
             else:
